@@ -60,6 +60,7 @@ ObsInit == [fkey |-> EmptyMap,     \* future -> Key(type, executor)
             execs |-> {},          \* <<Key, instance>> of executors created (several objects may share a name = a label)
             shc |-> {}, shr |-> {},\* <<Key, instance>> of executors whose shutdown() was entered / has returned
             polls |-> EmptyMap, pollerr |-> EmptyMap,   \* executor id -> calls / raising calls of the poll fn
+            wasdone |-> EmptyMap,  \* <<thread, f>> -> was f already done when that thread's pending cancel() of it arrived
             tmo |-> EmptyMap,      \* executor id -> cancels by the timeout thread that returned True
             scan |-> EmptyMap]     \* executor id -> cancels by CancelOnShutdown.shutdown() that returned True
 
@@ -77,8 +78,11 @@ ObsNext(st, e) ==
     [] e.ev = "ExecShutdownRet" -> [st EXCEPT !.shr = @ \cup {<<Key(e.k, e.c), e.b>>}]
     [] e.ev = "FnCall" /\ e.s = "poll" ->
           [st EXCEPT !.polls = Bump(@, e.c), !.pollerr = IF e.a = 1 THEN Bump(@, e.c) ELSE @]
+    [] e.ev = "CancelArrived" -> [st EXCEPT !.wasdone = Put(@, <<e.thr, e.f>>, e.a = 1)]
+    \* a timeout "succeeded" when the timeout thread's cancel() cancelled a future that was not done yet (cancel() also
+    \* answers True on a future somebody else had cancelled already: that is not a timeout)
     [] e.ev = "CancelArrivedRet" /\ e.a = 1 ->
-          [st EXCEPT !.tmo = IF e.r = "timeout" /\ e.k = T_TIMEOUT THEN Bump(@, e.c) ELSE @,
+          [st EXCEPT !.tmo = IF e.r = "timeout" /\ e.k = T_TIMEOUT /\ ~Get(st.wasdone, <<e.thr, e.f>>, FALSE) THEN Bump(@, e.c) ELSE @,
                      !.scan = IF e.b >= 0 THEN Bump(@, e.b) ELSE @]
     [] OTHER -> st
 
